@@ -202,10 +202,27 @@ func (c *Ctx) ruleServeRouting(r2, r3 *RuleRep) {
 			r3.Bad(key+"/send", x.Pos(), "hand-over of %s is a blocking send: the reader goroutine can block for ever on a waiter that has gone away", want)
 			ch = x.Chan
 		}
-		// channel = result of a signaller look-up keyed by this packet's ID
+		// channel = result of a signaller look-up keyed by this packet's ID, or (for the unkeyed CONNACK / PINGRESP waiters)
+		// a channel field of this client's signaller read directly
 		rv := c.Resolve(ch)
 		if ex, ok := rv.(*ssa.Extract); ok {
 			rv = ex.Tuple
+		}
+		ownSig := func(v ssa.Value) bool {
+			u, ok := c.Resolve(v).(*ssa.UnOp)
+			if !ok {
+				return false
+			}
+			b, ok := isFieldAddr(u.X, "BaseClient", "sig")
+			return ok && c.Resolve(b) == ssa.Value(m.F.Params[0])
+		}
+		if ld, ok := rv.(*ssa.UnOp); ok && ld.Op == token.MUL {
+			if fa, ok := ld.X.(*ssa.FieldAddr); ok && typeName(fa.X.Type()) == "signaller" {
+				if _, isChan := ld.Type().Underlying().(*types.Chan); isChan && ownSig(fa.X) && arm.Instr[ld] && ld.Type().Underlying().(*types.Chan).Elem().String() == arm.Pkt.Type().String() {
+					r2.OK(key, ld.Pos(), "0x%02X -> %s.Parse -> this client's signaller channel for %s (read per packet) -> non-blocking send of the parsed packet", arm.K, want, want)
+					continue
+				}
+			}
 		}
 		call, ok := rv.(*ssa.Call)
 		callee := (*ssa.Function)(nil)
@@ -221,10 +238,7 @@ func (c *Ctx) ruleServeRouting(r2, r3 *RuleRep) {
 			continue
 		}
 		// receiver: signaller of this client
-		if u, ok := c.Resolve(call.Call.Args[0]).(*ssa.UnOp); !ok || func() bool {
-			b, ok := isFieldAddr(u.X, "BaseClient", "sig")
-			return !ok || c.Resolve(b) != ssa.Value(m.F.Params[0])
-		}() {
+		if !ownSig(call.Call.Args[0]) {
 			r2.Bad(key, call.Pos(), "look-up is not made in this client's signaller")
 			continue
 		}
